@@ -19,7 +19,8 @@ import time
 VERIF = os.path.dirname(os.path.dirname(os.path.abspath(__file__)))
 REPO = os.environ.get("VERIF_REPO", "/repo")
 LEAN = os.path.join(VERIF, "lean")
-PMODEL = os.path.join(LEAN, ".lake", "build", "bin", "pmodel")
+PMODEL_BUILT = os.path.join(LEAN, ".lake", "build", "bin", "pmodel")
+PMODEL = PMODEL_BUILT     # replaced by a private copy taken under the lake lock (see private_pmodel)
 ALLOWED_AXIOMS = {"propext", "Classical.choice", "Quot.sound"}
 BANNED = ["sorry", "admit", "native_decide", "implemented_by", "unsafe", "maxHeartbeats 0",
           "bv_decide"]
@@ -164,6 +165,16 @@ def regen(ctx, prop_modules=None):
     return out
 
 
+def private_pmodel(ctx):
+    """Call with the lake lock held, after `pmodel` was built: this run uses its own copy of the executable, so that a
+    concurrent check (of another property, or against another VERIF_REPO whose Gen files differ) cannot swap it."""
+    global PMODEL
+    if os.path.exists(PMODEL_BUILT):
+        priv = os.path.join(ctx.tmp, "pmodel")
+        shutil.copy2(PMODEL_BUILT, priv)
+        PMODEL = priv
+
+
 def lake_build(targets):
     r = run(["lake", "build"] + targets, cwd=LEAN)
     return r.returncode == 0, (r.stdout or "") + (r.stderr or "")
@@ -236,6 +247,8 @@ def proof_audit(ctx, prop_modules, extra_targets=("pmodel",)):
         if not ok_pm:
             ctx.proof_ok = False
             ctx.proof_msgs.append("pmodel does not build:\n" + out_pm[-3000:])
+        else:
+            private_pmodel(ctx)
         for mod in prop_modules:
             names = theorem_names(mod)
             ctx.obligations += names
@@ -789,6 +802,7 @@ def replay(ctx, components, path):
     with LakeLock():
         regen(ctx)
         lake_build(["pmodel"])
+        private_pmodel(ctx)
     comp = [c for c in components if c.name == obj.get("component")]
     if not comp:
         print("replay: nothing executable in this replay (kind=%s): %s" % (obj.get("kind"), json.dumps(obj.get("broken"))[:2000]))
